@@ -235,7 +235,10 @@ Inductive hop :=
 | HClose (clear : bool)
 (* a direct call filer.remake(name=, base=, temp=, clean=, filed=, extensioned=, fext=) with its own
    arguments; it returns a path and changes nothing of the object *)
-| HRemake (name base : list seg) (temp clean filed ext : bool) (fext : seg).
+| HRemake (name base : list seg) (temp clean filed ext : bool) (fext : seg)
+(* leaving the block of "with openFiler(..., clear=clear) as filer": filer.close(clear=filer.temp or clear),
+   with the object's CURRENT temp attribute *)
+| HExit (clear : bool).
 
 Definition tmp_dir (c : config) (k : nat) : path := dirname (c_tmp c) ++ [[84; 48 + N.of_nat k]%N].
 
@@ -263,6 +266,8 @@ Definition run_hop (c : config) (st : filer) (h : hop) (w : world) : res unit * 
   match h with
   | HClose cl =>
     if cl then let (r, w') := clear_st c st w in (r, st, w') else (Ok tt, st, w)
+  | HExit cl =>
+    if f_temp st || cl then let (r, w') := clear_st c st w in (r, st, w') else (Ok tt, st, w)
   | HRemake nm bs t cl fl ex fx =>
     let c' := cfg_call c nm bs t cl fl ex fx (tmp_dir c (f_next st)) in
     let (r, w') := remake c' w in
@@ -366,6 +371,8 @@ Fixpoint hop_branches (c : config) (st : filer) (hs : list hop) (w : world) : li
   | h :: hs' =>
     let '(r, st', w') := run_hop c st h w in
     (match h, r with
+     | HExit _, Exc _ => 29
+     | HExit _, _ => if f_temp st then 32 else 33
      | HRemake _ _ _ _ _ _ _, Exc _ => 31
      | HRemake _ _ _ _ _ _ _, _ => 30
      | _, Exc _ => 29
@@ -399,4 +406,4 @@ Definition case_branches (k : case) : list nat :=
     end
   | Exc _ => []
   end.
-Definition n_branches : nat := 32.
+Definition n_branches : nat := 34.
